@@ -109,8 +109,10 @@ Inductive op :=
     (* channel_failed_permanent / handle_network_update(ChannelFailure) *)
 | OFailNode (nid : Z) (permanent : bool) (now : Z)
     (* node_failed_permanent / handle_network_update(NodeFailure) *)
-| OPrune (now : Z).
+| OPrune (now : Z)
     (* remove_stale_channels_and_tracking_with_time *)
+| OReload.
+    (* NetworkGraph::write followed by NetworkGraph::read: removal tracking is not persisted *)
 
 (** ** Errors ([LightningError.err] text and [ErrorAction] class) *)
 Inductive gerr :=
@@ -504,6 +506,7 @@ Definition step (cf : cfg) (g : graph) (o : op) : gres * graph :=
   | OFailChan scid perm now => (GOk VUnit, if perm then remove_channel g scid now else g)
   | OFailNode nid perm now => (GOk VUnit, if perm then fail_node g nid now else g)
   | OPrune now => (GOk VUnit, prune g now)
+  | OReload => (GOk VUnit, Graph (g_chans g) (g_nodes g) ∅ ∅)
   end.
 
 Definition run (cf : cfg) (g : graph) (ops : list op) : graph :=
@@ -531,12 +534,30 @@ Definition dump (g : graph) : list (list Z) * list (list Z) * list (Z * Z) * lis
   (dump_chan <$> map_to_list (g_chans g), dump_node <$> map_to_list (g_nodes g),
    map_to_list (g_rmc g), map_to_list (g_rmn g)).
 
-(** Run an op list printing, after every op, the result and (when the op did not fail) the dump. *)
-Fixpoint trace (cf : cfg) (g : graph) (ops : list op)
-  : list (gres * option (list (list Z) * list (list Z) * list (Z * Z) * list (Z * Z))) :=
+(** Flat encodings for printing: a result is a [list Z], a step a [list (list (list Z))]. *)
+Fixpoint err_index_in (l : list gerr) (e : gerr) (i : Z) : Z :=
+  match l with
+  | [] => -1
+  | x :: l' => if bool_decide (err_text x = err_text e ∧ err_action x = err_action e) then i
+               else err_index_in l' e (i + 1)
+  end.
+Definition enc_res (r : gres) : list Z :=
+  match r with
+  | GOk VUnit => [0]
+  | GOk (VBool b) => [1; if b then 1 else 0]
+  | GOk (VNodes None) => [2]
+  | GOk (VNodes (Some (a, b))) => [3; a; b]
+  | GErr e => [9; err_index_in all_errs e 0]
+  end.
+Definition enc_pairs (l : list (Z * Z)) : list (list Z) := (λ kt : Z * Z, [kt.1; kt.2]) <$> l.
+(** after every op: [[result]] for a failed op, [[result]; chans; nodes; rmc; rmn] otherwise *)
+Fixpoint trace (cf : cfg) (g : graph) (ops : list op) : list (list (list (list Z))) :=
   match ops with
   | [] => []
   | o :: ops' =>
       let '(r, g') := step cf g o in
-      (r, match r with GOk _ => Some (dump g') | GErr _ => None end) :: trace cf g' ops'
+      (match r with
+       | GOk _ => let '(c, n, rc, rn) := dump g' in [[enc_res r]; c; n; enc_pairs rc; enc_pairs rn]
+       | GErr _ => [[enc_res r]]
+       end) :: trace cf g' ops'
   end.
